@@ -164,6 +164,13 @@ func (ipcp *IPCPStateMachine) setState(newState IPCPState) {
 	oldState := ipcp.state
 	ipcp.state = newState
 
+	// The restart timer only runs in states that wait for the peer (RFC 1661 section 4.6)
+	switch newState {
+	case IPCPStateClosing, IPCPStateStopping, IPCPStateReqSent, IPCPStateAckRcvd, IPCPStateAckSent:
+	default:
+		ipcp.stopTimer()
+	}
+
 	ipcp.logger.Debug("IPCP state change",
 		zap.String("from", oldState.String()),
 		zap.String("to", newState.String()),
@@ -478,8 +485,6 @@ func (ipcp *IPCPStateMachine) receiveConfigureAck(pkt *LCPPacket) error {
 		return nil
 	}
 
-	ipcp.stopTimer()
-
 	switch ipcp.state {
 	case IPCPStateClosed, IPCPStateStopped:
 		ipcp.sendTerminateAck(pkt.Identifier)
@@ -505,8 +510,6 @@ func (ipcp *IPCPStateMachine) receiveConfigureNak(pkt *LCPPacket) error {
 	if pkt.Identifier != ipcp.lastIdentifier {
 		return nil
 	}
-
-	ipcp.stopTimer()
 
 	// Process NAK options
 	opts, err := ParseLCPOptions(pkt.Data)
@@ -547,8 +550,6 @@ func (ipcp *IPCPStateMachine) receiveConfigureReject(pkt *LCPPacket) error {
 		return nil
 	}
 
-	ipcp.stopTimer()
-
 	// Process rejected options - stop sending them
 	opts, _ := ParseLCPOptions(pkt.Data)
 	for _, opt := range opts {
@@ -576,8 +577,6 @@ func (ipcp *IPCPStateMachine) receiveConfigureReject(pkt *LCPPacket) error {
 
 // receiveTerminateRequest handles incoming Terminate-Request
 func (ipcp *IPCPStateMachine) receiveTerminateRequest(pkt *LCPPacket) error {
-	ipcp.stopTimer()
-
 	switch ipcp.state {
 	case IPCPStateClosed, IPCPStateStopped, IPCPStateClosing, IPCPStateStopping:
 		ipcp.sendTerminateAck(pkt.Identifier)
@@ -586,6 +585,7 @@ func (ipcp *IPCPStateMachine) receiveTerminateRequest(pkt *LCPPacket) error {
 		ipcp.setState(IPCPStateStopped)
 	case IPCPStateOpened:
 		ipcp.zeroRestartCount()
+		ipcp.startTimer()
 		ipcp.sendTerminateAck(pkt.Identifier)
 		ipcp.setState(IPCPStateStopping)
 	}
@@ -595,8 +595,6 @@ func (ipcp *IPCPStateMachine) receiveTerminateRequest(pkt *LCPPacket) error {
 
 // receiveTerminateAck handles incoming Terminate-Ack
 func (ipcp *IPCPStateMachine) receiveTerminateAck(pkt *LCPPacket) error {
-	ipcp.stopTimer()
-
 	switch ipcp.state {
 	case IPCPStateClosing:
 		ipcp.setState(IPCPStateClosed)
@@ -712,8 +710,12 @@ func (ipcp *IPCPStateMachine) timeout() {
 		switch ipcp.state {
 		case IPCPStateClosing, IPCPStateStopping:
 			ipcp.sendTerminateRequest("Timeout")
-		case IPCPStateReqSent, IPCPStateAckRcvd, IPCPStateAckSent:
+		case IPCPStateReqSent, IPCPStateAckSent:
 			ipcp.sendConfigureRequest()
+		case IPCPStateAckRcvd:
+			// The peer's Ack does not cover the retransmitted request (RFC 1661: TO+ -> Req-Sent)
+			ipcp.sendConfigureRequest()
+			ipcp.setState(IPCPStateReqSent)
 		}
 	} else {
 		switch ipcp.state {
